@@ -5,6 +5,7 @@ import (
 	"go/token"
 	"go/types"
 	"sort"
+	"strings"
 
 	"golang.org/x/tools/go/ssa"
 )
@@ -176,4 +177,214 @@ func describeVal(v ssa.Value) string {
 		}
 	}
 	return v.String()
+}
+
+// E-CUT2: mark-before-recurse.
+//
+// A traversal of a possibly cyclic graph terminates only if a node is put into the visited set
+// BEFORE the traversal descends from it: `if !visited[n] { visited[n] = true; descend(n) }`.
+// With the mark after the descent a cycle that does not pass through an already marked node
+// recurses without bound (stack overflow, which Go cannot recover from).
+//
+// Recognition: a function F that looks up M[k] in a bool-valued map, branches on the result and
+// also stores M[·] = true. Obligation: every call site in F that can lead back into F (a static
+// call or a call of a closure variable whose possible targets, per the VTA call graph restricted
+// to the module, reach F) is dominated by a block that performs the store (or follows it in the
+// same block).
+
+func mapIdentityLoose(v ssa.Value) string {
+	if id := mapIdentity(v); id != "" {
+		return id
+	}
+	if u, ok := v.(*ssa.UnOp); ok && u.Op == token.MUL {
+		switch x := u.X.(type) {
+		case *ssa.FreeVar:
+			return "captured " + x.Name()
+		case *ssa.Alloc:
+			return "local " + x.Comment
+		}
+	}
+	if mm, ok := v.(*ssa.MakeMap); ok {
+		return "local map@" + mm.Name()
+	}
+	return ""
+}
+
+func checkMarkBeforeRecurse(p *Prog, r *RuleResult, pkgs map[string]bool) int {
+	cg := p.CallGraph()
+	var fns []*ssa.Function
+	for _, fn := range p.ModuleFuncs() {
+		if pkgs[shortPkg(pkgPathOf(fn))] && len(fn.Blocks) > 0 {
+			fns = append(fns, fn)
+		}
+	}
+	sort.Slice(fns, func(i, j int) bool { return FuncName(fns[i]) < FuncName(fns[j]) })
+	found := 0
+	for _, fn := range fns {
+		// visited-guard maps: looked up with a branch on the result, and stored true
+		lookups := map[string]bool{}
+		marks := map[string][]*ssa.MapUpdate{}
+		eachInstr(fn, func(b *ssa.BasicBlock, in ssa.Instruction) {
+			switch x := in.(type) {
+			case *ssa.Lookup:
+				mt, ok := x.X.Type().Underlying().(*types.Map)
+				if !ok {
+					return
+				}
+				if bt, ok := mt.Elem().Underlying().(*types.Basic); !ok || bt.Info()&types.IsBoolean == 0 {
+					return
+				}
+				if id := mapIdentityLoose(x.X); id != "" {
+					lookups[id] = true
+				}
+			case *ssa.MapUpdate:
+				if isConstBool(x.Value, true) {
+					if id := mapIdentityLoose(x.Map); id != "" {
+						marks[id] = append(marks[id], x)
+					}
+				}
+			}
+		})
+		var ids []string
+		for id := range lookups {
+			if len(marks[id]) > 0 {
+				ids = append(ids, id)
+			}
+		}
+		if len(ids) == 0 {
+			continue
+		}
+		sort.Strings(ids)
+		// call sites of fn that can lead back into fn
+		node := cg.Nodes[fn]
+		if node == nil {
+			continue
+		}
+		reach := map[*ssa.Function]int{} // 0 unknown, 1 yes, 2 no
+		var reaches func(g *ssa.Function, depth int) bool
+		reaches = func(g *ssa.Function, depth int) bool {
+			if g == fn {
+				return true
+			}
+			if depth > 12 || !p.InModule(g) {
+				return false
+			}
+			switch reach[g] {
+			case 1:
+				return true
+			case 2:
+				return false
+			}
+			reach[g] = 2
+			if n := cg.Nodes[g]; n != nil {
+				for _, e := range n.Out {
+					// only static calls and calls of function values (closures); interface
+					// dispatch is too coarse in the call graph to say anything
+					if e.Site != nil && e.Site.Common().IsInvoke() {
+						continue
+					}
+					if reaches(e.Callee.Func, depth+1) {
+						reach[g] = 1
+						return true
+					}
+				}
+			}
+			return false
+		}
+		type site struct {
+			in ssa.CallInstruction
+		}
+		var sites []ssa.CallInstruction
+		seenSite := map[ssa.CallInstruction]bool{}
+		for _, e := range node.Out {
+			if e.Site == nil || e.Site.Common().IsInvoke() || seenSite[e.Site] {
+				continue
+			}
+			if _, isGo := e.Site.(*ssa.Go); isGo {
+				continue
+			}
+			if reaches(e.Callee.Func, 0) {
+				seenSite[e.Site] = true
+				sites = append(sites, e.Site)
+			}
+		}
+		if len(sites) == 0 {
+			continue
+		}
+		sort.Slice(sites, func(i, j int) bool { return sites[i].Pos() < sites[j].Pos() })
+		found++
+		for i, cs := range sites {
+			r.Instances++
+			key := fmt.Sprintf("%s re-entering call #%d", FuncName(fn), i+1)
+			// path-based: no path from the entry to the call avoids every marking block — except
+			// through the edge on which the visited set itself is nil (no set, no traversal)
+			cb := cs.Block()
+			markBlocks := map[*ssa.BasicBlock]bool{}
+			sameBlockBefore := false
+			for _, id := range ids {
+				for _, mu := range marks[id] {
+					if mu.Block() == cb {
+						for _, bi := range cb.Instrs {
+							if bi == ssa.Instruction(mu) {
+								sameBlockBefore = true
+								break
+							}
+							if bi == cs.(ssa.Instruction) {
+								break
+							}
+						}
+						continue
+					}
+					markBlocks[mu.Block()] = true
+				}
+			}
+			nilEdge := func(b *ssa.BasicBlock, si int) bool {
+				if len(b.Instrs) == 0 {
+					return false
+				}
+				ifi, isIf := b.Instrs[len(b.Instrs)-1].(*ssa.If)
+				if !isIf {
+					return false
+				}
+				bo, isBo := ifi.Cond.(*ssa.BinOp)
+				if !isBo || (bo.Op != token.EQL && bo.Op != token.NEQ) {
+					return false
+				}
+				var other ssa.Value
+				if c, isC := bo.Y.(*ssa.Const); isC && c.Value == nil {
+					other = bo.X
+				} else if c, isC := bo.X.(*ssa.Const); isC && c.Value == nil {
+					other = bo.Y
+				}
+				if other == nil {
+					return false
+				}
+				isSet := false
+				for _, id := range ids {
+					if mapIdentityLoose(other) == id {
+						isSet = true
+					}
+				}
+				if !isSet {
+					return false
+				}
+				// the edge taken when the set is nil
+				if bo.Op == token.EQL {
+					return si == 0
+				}
+				return si == 1
+			}
+			ok := sameBlockBefore
+			if !ok {
+				_, escapes := reachesExitAvoidingEdges(fn.Blocks[0], func(b *ssa.BasicBlock) bool { return b == cb }, func(b *ssa.BasicBlock) bool { return markBlocks[b] }, nilEdge)
+				ok = !escapes && len(markBlocks) > 0
+			}
+			if ok {
+				r.OK(key, true, "the node is marked visited ("+strings.Join(ids, ", ")+") before the traversal descends")
+			} else {
+				r.Fail(key, p.Pos(cs.Pos()), fmt.Sprintf("%s guards its traversal with the visited set %s but can descend (call leading back into itself) before the current node is marked: a cycle that does not pass through an already marked node recurses without bound — a stack overflow that cannot be recovered", FuncName(fn), strings.Join(ids, ", ")))
+			}
+		}
+	}
+	return found
 }
